@@ -16,7 +16,7 @@ def hexOrTilde (b : Option Bytes) : String :=
 
 def devSummary (c : Cfg) : String :=
   let vols := c.vols.foldl (fun acc (v : VolCfg) =>
-    acc ++ s!" [{v.firstBlock} {v.lastBlock} {v.rootBlock} {hexOrTilde v.volName}]") ""
+    acc ++ s!" [{toInt32 v.firstBlock} {toInt32 v.lastBlock} {toInt32 v.rootBlock} {hexOrTilde v.volName}]") ""
   s!" type={c.devType} ro={if c.devReadOnly then 1 else 0} size={c.devSize} nvol={c.vols.length} cyl={c.cylinders} heads={c.heads} sec={c.sectors}" ++ vols
 
 def evLine (e : Ev) : String :=
@@ -33,6 +33,7 @@ structure Drv where
   w : World := {}
   traceOn : Bool := true
   dead : Option String := none     -- a model fault: everything after it is reported as such
+  hmounted : List Nat := []        -- volumes for which the harness holds a successful adfMount (g_mounted in adfh.c)
   deriving Inhabited
 
 def faultStr (f : Fault) : String :=
@@ -206,18 +207,38 @@ def stepOp1 (d : Drv) (args : List String) : List String × Drv :=
     let nb := d.w.cfg.devSize / 512
     let h := (List.range nb).foldl (fun acc i => (d.w.st.sector i).foldl fnvStep acc) 2166136261
     ([s!"= hash={hex8 h} size={d.w.cfg.devSize}"], d)
+  | ["pokeimg", _, off, hx] =>
+    -- overwrite image bytes (the test's own mutation of the medium; the device is closed)
+    let bs := bytesOfHex hx
+    let disk := (List.range bs.length).foldl (fun (dk : Std.HashMap Nat Bytes) i =>
+      let o := n off + i
+      let sec := dk.getD (o / 512) zeroBlock
+      dk.insert (o / 512) (putAt (padTo sec 512) (o % 512) [bs.getD i 0])) d.w.st.disk
+    (["= ok"], { d with w := { d.w with st := { d.w.st with disk := disk } } })
   | ["rmdev", _] => (["= ok"], d)
   | op :: _ => ([s!"= bad-op {op}"], d)
   | [] => ([], d)
 
-def volMounted (d : Drv) (p : Nat) : Bool := d.w.devOpen && p < d.w.cfg.vols.length && (d.w.cfg.vol p).mounted
+def volMounted (d : Drv) (p : Nat) : Bool := d.w.devOpen && p < d.w.cfg.vols.length && d.hmounted.contains p
 
-def stepOp (d : Drv) (args : List String) : List String × Drv :=
+def stepOp0 (d : Drv) (args : List String) : List String × Drv :=
   match volOpNeeds args with
   | some p => if volMounted d p then stepOp1 d args else (["= not-mounted"], d)
   | none =>
     match args with
     | ["open", _, _, p, _, _] => if volMounted d (natOf p) then stepOp1 d args else (["= not-mounted"], d)
     | _ => stepOp1 d args
+
+/-- bookkeeping of the harness's own view of which volumes are mounted -/
+def stepOp (d : Drv) (args : List String) : List String × Drv :=
+  let (lines, d') := stepOp0 d args
+  match args with
+  | ["mount", _, p, _] =>
+    let ok := (lines.headD "").startsWith "= ok"
+    (lines, { d' with hmounted := if ok then natOf p :: d'.hmounted.filter (· ≠ natOf p) else d'.hmounted.filter (· ≠ natOf p) })
+  | ["unmount", _, p] => (lines, { d' with hmounted := d'.hmounted.filter (· ≠ natOf p) })
+  | ["closedev", _] => (lines, { d' with hmounted := [] })
+  | ["opendev", _, _] => (lines, { d' with hmounted := [] })
+  | _ => (lines, d')
 
 end Adf
